@@ -119,5 +119,5 @@ Example C12_guards_satisfiable : normal E0 ex_p4 = true /\ floats_ok_op E0 ex_p4
 Proof. exact (conj ex_p4_normal (conj ex_p4_floats F0_float_ok)). Qed.
 Example C12_sample_print :
   option_map (fun ts => List.length ts) (print_op E0 ex_p4) = Some 108%nat /\
-  (exists ts, print_op E0 ex_p4 = Some ts /\ rebuild E0 ts = Some ex_p4).
-Proof. split; [vm_compute; reflexivity|]. eexists. split; vm_compute; reflexivity. Qed.
+  match print_op E0 ex_p4 with Some ts => rebuild E0 ts | None => None end = Some ex_p4.
+Proof. split; vm_compute; reflexivity. Qed.
